@@ -1,6 +1,7 @@
 package jsonapi
 
 import (
+	"bytes"
 	"encoding/json"
 	"errors"
 	"fmt"
@@ -362,6 +363,18 @@ func (a Attr) UnmarshalToType(data []byte) (any, error) {
 
 		if err != nil {
 			panic(err)
+		}
+
+		// encoding/json also fills a []byte from an array of numbers,
+		// but only a base64-encoded string (or null, which is what a
+		// nil slice is marshaled to) represents a bytes attribute.
+		if trimmed := bytes.TrimLeft(data, " \t\r\n"); !bytes.HasPrefix(trimmed, []byte(`"`)) &&
+			string(trimmed) != "null" {
+			return nil, NewErrInvalidFieldValueInBody(
+				a.Name,
+				string(data),
+				GetAttrTypeString(a.Type, a.Nullable),
+			)
 		}
 
 		if a.Nullable {
